@@ -675,8 +675,11 @@ class Double:
             except asyncio.CancelledError:
                 self.run.ev(f"d_{phase}_cancelled", self.path, j=self.j)
                 raise
-        if b.endswith("raise") or b.endswith("raise_base"):
-            e = (DispBase if b.endswith("raise_base") else DispErr)((phase, self.path, self.j))
+        if b.endswith("raise") or b.endswith("raise_base") or b.endswith("raise_cancelled"):
+            # "raise_cancelled": the disposable's OWN CancelledError (it stopped an internal worker with cancel() and awaited
+            # it) while nobody cancelled the scope's task: still that disposable's error
+            cls = DispBase if b.endswith("raise_base") else (asyncio.CancelledError if b.endswith("raise_cancelled") else DispErr)
+            e = cls((phase, self.path, self.j))
             self.run.ev(f"d_{phase}_raise", self.path, j=self.j, exc=e)
             raise e
 
